@@ -654,6 +654,15 @@ V('v13.12b', 'C13', 'F', 'C13.R8', 'a string that names a file is read from disk
 V('v13.s3', 'C13', 'S', None, 'path objects (never strings) are read from disk',
   (PARSER, '', "import ast\n", "import ast\nimport os\n"),
   (PARSER, 'parse_model', "    problem_statements: List[Tuple[int, str, str]] = []\n", "    if isinstance(model, os.PathLike):\n        with open(model) as f_:\n            model = f_.read()\n    problem_statements: List[Tuple[int, str, str]] = []\n"))
+V('v13.13', 'C13', 'F', 'C13.R3', "revert F26: no guard at the split, fence alternative matches lines inside a statement",
+  (PARSER, 'parse_equation_terms', """    if '=' not in equation:
+        raise ParserError(f"Failed to parse equation (no '=' found): '{equation}'")
+""", ''))
+V('v13.s4', 'C13', 'S', None, 'no guard at the split, but the fence alternative is anchored to the whole statement',
+  (PARSER, 'parse_equation_terms', """    if '=' not in equation:
+        raise ParserError(f"Failed to parse equation (no '=' found): '{equation}'")
+""", ''),
+  (PARSER, '', "(?: ^ [`]{3,}\\n .*? [`]{3,} $ )|", "(?: \\A [`]{3,}\\n .*? [`]{3,} \\Z )|"))
 V('v13.s1', 'C13', 'S', None, 'ast.parse via compile(PyCF_ONLY_AST)',
   (PARSER, 'parse_model', 'body = ast.parse(e).body', "body = compile(e, '<string>', 'exec', ast.PyCF_ONLY_AST).body"))
 V('v13.s2', 'C13', 'S', None, 'escape inlined',
